@@ -54,6 +54,28 @@ def _bumpver(d, *args):
     return p.returncode, p.stdout, p.stderr
 
 
+def _render(template, ver):
+    """Expected text of an occurrence line: the version and its PEP 440 normal form (reference: packaging)."""
+    import packaging.version as pv
+
+    return template.replace("{version}", ver).replace("{pep440_version}", str(pv.Version(ver)))
+
+
+def _both_ok(template, text, ver):
+    """first / <template with the version and a PEP 440 spelling of the same version> / last."""
+    import packaging.version as pv
+
+    pre, post = template.split("{pep440_version}")
+    rx = re.escape("first\n" + pre.replace("{version}", ver)) + r"([^\"]*)" + re.escape(post + "\nlast\n")
+    m = re.fullmatch(rx, text)
+    if not m:
+        return False
+    try:
+        return pv.Version(m.group(1)) == pv.Version(ver) and not m.group(1).startswith("v")
+    except pv.InvalidVersion:
+        return False
+
+
 def history_case(seed):
     rng = random.Random(seed)
     d = tempfile.mkdtemp(prefix="c08_")
@@ -62,17 +84,21 @@ def history_case(seed):
         cur = {"MAJOR.MINOR.PATCH": "1.9.9", "vMAJOR.MINOR.PATCH[-TAG]": "v0.9.10-beta", "YYYY.BUILD[-TAG]": "2020.1009-beta"}[pattern]
         tagging = rng.random() < 0.7
         files = {"src/mod.py": '__version__ = "{version}"', "README.md": "release {version} of the thing", "notes.txt": "{version}"}
+        # one line with two occurrences found by two different patterns (the version and its PEP 440 form)
+        both = ("both.cfg", ['ver="{version}"', 'pep="{pep440_version}"'], 'ver="{version}" # pep="{pep440_version}" # trailing text')
         cfg = f'[bumpver]\ncurrent_version = "{cur}"\nversion_pattern = "{pattern}"\ncommit = true\ntag = {"true" if tagging else "false"}\npush = false\n\n[bumpver.file_patterns]\n"bumpver.toml" = [\'current_version = "{{version}}"\']\n'
         for fn, pat in files.items():
             os.makedirs(os.path.dirname(os.path.join(d, fn)) or d, exist_ok=True)
             open(os.path.join(d, fn), "w").write("line one\n" + pat.replace("{version}", cur) + "\nline three\n")
             cfg += f'"{fn}" = [\'{pat}\']\n'
+        cfg += f'"{both[0]}" = [\'{both[1][0]}\', \'{both[1][1]}\']\n'
+        open(os.path.join(d, both[0]), "w").write("first\n" + _render(both[2], cur) + "\nlast\n")
         open(os.path.join(d, "bumpver.toml"), "w").write(cfg)
         open(os.path.join(d, "other.txt"), "w").write("unrelated\n")
         _git(d, "init", "-q", ".")
         _git(d, "add", "-A")
         _git(d, "commit", "-q", "-m", "init")
-        configured = sorted(list(files) + ["bumpver.toml"])
+        configured = sorted(list(files) + ["bumpver.toml", both[0]])
         prev = cur
         for step in range(rng.randint(1, 6)):
             kind = rng.choice(["update", "update", "update", "fail", "unrelated", "notag"])
@@ -85,6 +111,8 @@ def history_case(seed):
             flags = ["--patch"] if "MAJOR" in pattern else []
             if "MAJOR" in pattern and rng.random() < 0.3:
                 flags = [rng.choice(["--minor", "--major"])]
+            if "TAG" in pattern and kind != "fail" and rng.random() < 0.5:
+                flags = flags + ["--tag", rng.choice(["rc", "final", "beta", "post"])]
             if kind == "fail":
                 flags = ["--set-version", "0.0.1" if "MAJOR" in pattern and not pattern.startswith("v") else "v0.0.1" if pattern.startswith("v") else "2001.1001"]
             if kind == "notag":
@@ -106,6 +134,9 @@ def history_case(seed):
                 text = open(os.path.join(d, fn)).read()
                 if text != "line one\n" + pat.replace("{version}", new) + "\nline three\n":
                     return f"step {step}: {fn} does not show {new!r}: {text!r}"
+            text = open(os.path.join(d, both[0])).read()
+            if not _both_ok(both[2], text, new):
+                return f"step {step}: {both[0]} (two occurrences on one line) does not show {new!r}: {text!r}"
             if f'current_version = "{new}"' not in open(os.path.join(d, "bumpver.toml")).read():
                 return f"step {step}: config current_version is not {new!r}"
             rc2, out2, err2 = _bumpver(d, "show", "--no-fetch")
